@@ -1047,6 +1047,18 @@ func TestC13(t *testing.T) {
 				stats.Class(l)
 			}
 		}
+		if (out.wedged || len(out.dropped) > 0) && !out.died {
+			// a health check, a dispatch probe or a request that ran into its wall-clock limit is only evidence if it does
+			// so again: the same batch is run once more on a fresh server. What a request stored reproduces; a machine that
+			// stood still for a few seconds does not (a process that died needs no confirmation).
+			again := runBatch(fmt.Sprintf("%s/confirm%d", dir, batch), scs, true)
+			if !again.bad() && len(again.dropped) == 0 {
+				stats.Class("time-limit-hit-not-confirmed-by-a-second-run")
+				out.wedged, out.dropped, out.log = false, nil, ""
+			} else if again.died {
+				out = again
+			}
+		}
 		if out.bad() {
 			min := minimize(fmt.Sprintf("%s/min%d", dir, batch), scs)
 			final := runBatch(fmt.Sprintf("%s/min%d", dir, batch), min, false)
